@@ -250,7 +250,7 @@ func c13(c *an.Check) {
 
 func init() {
 	register(&Def{ID: "C13", Run: c13,
-		Explain:     "Decides on SSA: (PANIC) every potential panic site of DeriveKey/DeriveEd25519Key and their extra25519 helpers — notably the integer remainder by len(context), which needs a dominating non-empty guard — is discharged; (PURE) no randomness, clock or reassigned package variable is read anywhere in their in-repo call tree; (PROVENANCE) the output buffer is filled from one BLAKE3 KDF keyed by the context parameter into which the salt (unless empty) and the ECDH material derived from the private-key parameter are written, and DeriveEd25519Key seeds its key with exactly that output; (R1) success only past key conversion / point validity / ECDH. (PROVENANCE) PrivateKeyToCurve25519 hashes exactly privateKey[:32]; (OWNERSHIP) Raw returns a copy; (ORDER) no use after scrub in DeriveKey; private-key decode gates shared.",
+		Explain:     "Decides on SSA: (PANIC) every potential panic site of DeriveKey/DeriveEd25519Key and their extra25519 helpers — notably the integer remainder by len(context), which needs a dominating non-empty guard — is discharged; (PURE) no randomness, clock or reassigned package variable is read anywhere in their in-repo call tree; (PROVENANCE) the output buffer is filled from one BLAKE3 KDF keyed by the context parameter into which the salt (unless empty) and the ECDH material derived from the private-key parameter are written, and DeriveEd25519Key seeds its key with exactly that output; (R1) success only past key conversion / point validity / ECDH. (PROVENANCE) PrivateKeyToCurve25519 hashes exactly privateKey[:32]; (OWNERSHIP) Raw returns a copy; (ORDER) no use after scrub in DeriveKey; private-key decode gates shared. (OWNERSHIP) DeriveKey wipes only storage it produced itself (never a view of the caller's key); the context xor combines a key-material byte with a context byte.",
 		NotCov:      "'different inputs give different outputs' (collision resistance of the KDF: trusted).",
 		Assumptions: commonAssumptions})
 }
